@@ -27,19 +27,30 @@ func indexedSelect(
 		return err
 	}
 
-	return ind.Scan(func(r sdb.Record) bool {
+	var cbErr error
+	err = ind.Scan(func(r sdb.Record) bool {
 		rowid, _, err := sdb.ChompRowid(r)
 		if err != nil {
-			return false
+			cbErr = err
+			return true
 		}
 		row, err := tab.Rowid(rowid)
-		if err != nil || row == nil {
+		if err != nil {
+			cbErr = err
+			return true
+		}
+		if row == nil {
 			// row should never be nil
-			return false
+			cbErr = sdb.ErrCorrupted
+			return true
 		}
 		cb(toRow(rowid, ci, row))
 		return false
 	})
+	if err == nil {
+		err = cbErr
+	}
+	return err
 }
 
 // index (==) search on a rowid table
@@ -66,21 +77,32 @@ func indexedSelectEq(
 		return err
 	}
 
-	return ind.ScanEq(
+	var cbErr error
+	err = ind.ScanEq(
 		key,
 		func(r sdb.Record) bool {
 			rowid, _, err := sdb.ChompRowid(r)
 			if err != nil {
-				return false
+				cbErr = err
+				return true
 			}
 			row, err := tab.Rowid(rowid)
-			if err != nil || row == nil {
+			if err != nil {
+				cbErr = err
+				return true
+			}
+			if row == nil {
 				// row should never be nil
-				return false
+				cbErr = sdb.ErrCorrupted
+				return true
 			}
 			cb(toRow(rowid, ci, row))
 			return false
 		})
+	if err == nil {
+		err = cbErr
+	}
+	return err
 }
 
 // index scan on a WITHOUT ROWID table
@@ -114,7 +136,8 @@ func indexedSelectNonRowid(
 		return err
 	}
 
-	return ind.Scan(func(r sdb.Record) bool {
+	var cbErr error
+	err = ind.Scan(func(r sdb.Record) bool {
 		setKey(r, cols, pk)
 
 		var found sdb.Record
@@ -122,13 +145,22 @@ func indexedSelectNonRowid(
 			found = row
 			return true
 		})
-		if err != nil || found == nil {
+		if err != nil {
+			cbErr = err
+			return true
+		}
+		if found == nil {
 			// found should never be nil
-			return false
+			cbErr = sdb.ErrCorrupted
+			return true
 		}
 		cb(toRow(0, ci, found))
 		return false
 	})
+	if err == nil {
+		err = cbErr
+	}
+	return err
 }
 
 // index (==) search on a WITHOUT ROWID table
@@ -163,21 +195,31 @@ func indexedSelectEqNonRowid(
 		return err
 	}
 
-	return ind.ScanEq(
+	var cbErr error
+	err = ind.ScanEq(
 		key,
 		func(r sdb.Record) bool {
 			setKey(r, cols, pk)
 
 			var found sdb.Record
 			err := tab.ScanEq(pk, func(row sdb.Record) bool { found = row; return true })
-			if err != nil || found == nil {
+			if err != nil {
+				cbErr = err
+				return true
+			}
+			if found == nil {
 				// found should never be nil
-				return false
+				cbErr = sdb.ErrCorrupted
+				return true
 			}
 			cb(toRow(0, ci, found))
 			return false
 		},
 	)
+	if err == nil {
+		err = cbErr
+	}
+	return err
 }
 
 // make a key from columns from the record
